@@ -15,7 +15,7 @@ import (
 func init() {
 	register(&propDef{
 		id:      "C07",
-		explain: "Structural necessary conditions of 'configured size limits bound what is buffered': (E6) limit-flow: starting from the fields Server.MaxRequestBodySize / HostClient.MaxResponseBodySize / RequestConfig.MaxRequestBodySize and the limit parameters of the exported *WithLimit / ReadLimitBody / ContinueReadBody entry points, every module function parameter that receives a limit is found by propagation through static calls; each such function either compares the limit in a branch condition, stores it into the N of an io.LimitedReader, or forwards it to a callee that itself does - a function that receives a limit and drops it is a violation; every function that compares a limit has a return of ErrBodyTooLarge (or of an error wrapping it) control-dependent on such a comparison; (R-default) in the serve loop the value handed to the body readers is, on every path of every iteration, the per-request override, the server limit, or the default - a value set while serving an earlier request is never read for a later one - and the connection-level value replaces a non-positive server limit by the default before the loop; (R-431) the default error handler answers 431 for a too-small read buffer, and the error response path sets Connection: close. (R-fwd) the value a limit-receiving function passes on to a limit-taking callee is the received limit on every path: it is never merged with a non-positive constant ('unlimited') except where the received limit itself was found non-positive. (R-full) headerError reports io.EOF only on paths that compared the read error with bufio.ErrBufferFull; (R-prefit) in a function that receives a body limit, the call that reads a multipart form ahead of the handler is reached only through a branch on that limit; (R-ident) BodyUncompressedWithLimit returns a body without Content-Encoding only on paths that compared something with the limit. Not decided: the numeric peak of buffered bytes; streamed bodies (unlimited by design).",
+		explain: "Structural necessary conditions of 'configured size limits bound what is buffered': (E6) limit-flow: starting from the fields Server.MaxRequestBodySize / HostClient.MaxResponseBodySize / RequestConfig.MaxRequestBodySize and the limit parameters of the exported *WithLimit / ReadLimitBody / ContinueReadBody entry points, every module function parameter that receives a limit is found by propagation through static calls; each such function either compares the limit in a branch condition, stores it into the N of an io.LimitedReader, or forwards it to a callee that itself does - a function that receives a limit and drops it is a violation; every function that compares a limit has a return of ErrBodyTooLarge (or of an error wrapping it) control-dependent on such a comparison; (R-default) in the serve loop the value handed to the body readers is, on every path of every iteration, the per-request override, the server limit, or the default - a value set while serving an earlier request is never read for a later one - and the connection-level value replaces a non-positive server limit by the default before the loop; (R-431) the default error handler answers 431 for a too-small read buffer, and the error response path sets Connection: close. (R-fwd) the value a limit-receiving function passes on to a limit-taking callee is the received limit on every path: it is never merged with a non-positive constant ('unlimited') except where the received limit itself was found non-positive. (R-cached) every successful return of MultipartFormWithLimit is reached only through a branch on the limit - a form parsed earlier is subject to it too; (R-full) headerError reports io.EOF only on paths that compared the read error with bufio.ErrBufferFull; (R-prefit) in a function that receives a body limit, the call that reads a multipart form ahead of the handler is reached only through a branch on that limit; (R-ident) BodyUncompressedWithLimit returns a body without Content-Encoding only on paths that compared something with the limit. Not decided: the numeric peak of buffered bytes; streamed bodies (unlimited by design).",
 		run:     runC07,
 	})
 }
@@ -29,6 +29,7 @@ func runC07(p *Prog, r *Report) {
 	identityBodyLimited(p, r)
 	preParseUnderTheLimit(p, r)
 	fullBufferIsNeverEOF(p, r)
+	cachedFormLimited(p, r)
 	// ---- E6: find limit-receiving parameters ----
 	lims := map[limParam]bool{}
 	var work []limParam
@@ -723,4 +724,45 @@ func fullBufferIsNeverEOF(p *Prog, r *Report) {
 			"the io.EOF return is reachable without a test of the read error against bufio.ErrBufferFull: a head of empty lines that fills the read buffer is taken for trailing CRLFs of a sloppy peer, and the connection is closed without the 431 every other oversized head gets", blocksString(p, path)...)
 	}
 	r.Floor("R-full", "io.EOF returns of headerError", n, 1)
+}
+
+// cachedFormLimited (C07.R-cached): MultipartFormWithLimit bounds what it returns also when the form was parsed
+// before (by the server ahead of the handler, or by an earlier call): every return with a nil error is reached only
+// through a branch on a comparison that involves the limit parameter.
+func cachedFormLimited(p *Prog, r *Report) {
+	fn := p.Func("(*Request).MultipartFormWithLimit")
+	if fn == nil {
+		r.Undecided("R-cached", "(*Request).MultipartFormWithLimit", "not found")
+		return
+	}
+	var limit *ssa.Parameter
+	for _, prm := range fn.Params {
+		if prm.Type().String() == "int" {
+			limit = prm
+		}
+	}
+	limitTest := func(i ssa.Instruction) bool {
+		iff, ok := i.(*ssa.If)
+		if !ok || limit == nil {
+			return false
+		}
+		bo, ok := iff.Cond.(*ssa.BinOp)
+		return ok && (derivesFromValue(bo.X, limit) || derivesFromValue(bo.Y, limit))
+	}
+	n := 0
+	for _, b := range fn.Blocks {
+		rt, ok := b.Instrs[len(b.Instrs)-1].(*ssa.Return)
+		if !ok {
+			continue
+		}
+		rr := returnResults(rt)
+		if len(rr) != 2 || !isNilConst(rr[1]) {
+			continue
+		}
+		n++
+		hit, path := reachAvoiding(fn, nil, func(i ssa.Instruction) bool { return i == ssa.Instruction(rt) }, limitTest, nil)
+		r.Check("R-cached", "MultipartFormWithLimit: a form is returned only after a comparison with the limit", hit == nil, p.Pos(rt.Pos()),
+			"a return with a nil error is reachable without any branch on maxBodySize: the form the server parsed ahead of the handler (or an earlier call cached) is handed out whatever the limit says", blocksString(p, path)...)
+	}
+	r.Floor("R-cached", "successful returns of MultipartFormWithLimit", n, 1)
 }
